@@ -13,6 +13,27 @@ Theorem C10_spec_highest_then_earliest : forall (s : spec_state) (x : K * Z),
 Proof. exact best_highest_then_earliest. Qed.
 Print Assumptions C10_spec_highest_then_earliest.
 
+(* they never return a task that was removed or already popped; len counts distinct live tasks *)
+Theorem C10_spec_pop_returns_live : forall s d s' t,
+  spec_step s (Pop d) = (s', OTask t) -> s_mem s t = true /\ s_mem s' t = false.
+Proof. exact pop_returns_live. Qed.
+Print Assumptions C10_spec_pop_returns_live.
+
+Theorem C10_spec_peek_returns_live : forall s d s' t,
+  spec_step s (Peek d) = (s', OTask t) -> s' = s /\ s_mem s t = true.
+Proof. exact peek_returns_live. Qed.
+Print Assumptions C10_spec_peek_returns_live.
+
+Theorem C10_spec_remove_makes_dead : forall s t s' o,
+  spec_step s (Remove t) = (s', o) -> s_mem s' t = false.
+Proof. exact remove_makes_dead. Qed.
+Print Assumptions C10_spec_remove_makes_dead.
+
+Theorem C10_spec_tasks_unique : forall s op,
+  NoDup (map fst s) -> NoDup (map fst (fst (spec_step s op))).
+Proof. exact tasks_unique_step. Qed.
+Print Assumptions C10_spec_tasks_unique.
+
 Example C10_spec_example :
   spec_run [] [Add 1 (Some 5%Z); Add 2 (Some 5%Z); Add 3 (Some 7%Z); Add 4 None; Remove 3; Peek None; Pop None;
                Add 1 (Some 5%Z); Len; Pop None; Pop None; Pop None; Pop (Some 9); Pop None; Remove 1]
